@@ -185,6 +185,10 @@ static ssize_t localPush(MPT_INTERFACE(output) *out, size_t len, const void *src
 	/* try local output */
 	ret = mpt_history_push(&lo->hist, len, src);
 	
+	/* incomplete message start: type not decidable yet */
+	if (ret == MPT_ERROR(MissingData)) {
+		return ret;
+	}
 	/* invalid local output operation */
 	if (ret < 0 && !(lo->hist.info.state & MPT_OUTFLAG(Active))) {
 		if (!(out = localPassOutput(lo))) {
